@@ -131,6 +131,8 @@ UNITS = {
             "fn value_to_bool(&self, val: &Value<'a>) -> bool",
             "fn eval_arithmetic_op<F, G>(",
             "fn compare_values(",
+            "fn values_equal(&self, a: &Value<'a>, b: &Value<'a>) -> bool",
+            "fn value_cmp(&self, a: &Value<'a>, b: &Value<'a>) -> Option<std::cmp::Ordering>",
         ],
     },
     "freelist": {
